@@ -71,11 +71,14 @@ structure Call where
 inductive Fail where
   | py (e : Err)
   | bind
+  /-- the statement does not compile (unknown column); never produced by `prepare` -/
+  | sql
   deriving DecidableEq, Repr, Inhabited
 
 def Fail.name : Fail → String
   | .py e => e.name
   | .bind => "ProgrammingError"
+  | .sql => "OperationalError"
 
 /-! ## strings -/
 
@@ -710,5 +713,20 @@ def finish (m : Method) (rows : List Cells) : Except Fail (Option (List Cells)) 
   | .oneOrEmpty, [] => .ok (some [])
   | .oneOrEmpty, [r] => .ok (some [r])
   | .oneOrEmpty, _ => .error (.py .valueError)
+
+/-- the whole call: prepare, let SQLite select and order the rows of the table, apply the method.
+`order`: the ORDER BY in effect (`_order_by` or the default), as a structure and (rendered by
+`orderText`) as the text handed to `SqlMethod`. -/
+def run (pct : Bool) (selectFrom : Str) (groupBy : Option Str) (order : Option OrderSpec) (call : Call)
+    (m : Method) (table : List Cells) : Except Fail (Option (List Cells)) := do
+  let p ← prepare pct { selectFrom := selectFrom, groupBy := groupBy, orderBy := order.map orderText } call
+  match selectRows (wheresFields p.conj) p.conj p.params table with
+  | none => .error .sql
+  | some sel =>
+    match (match order with
+      | some o => sortRows o sel
+      | none => some sel) with
+    | none => .error .sql
+    | some sorted => finish m sorted
 
 end SqlFilter
